@@ -9,7 +9,15 @@ import json
 import math
 
 import vlib
-from vlib import cZ, cbool, clist, copt, cpair, cstr, run_driver
+from vlib import cZ, cbool, clist, copt, cpair, run_driver
+
+def cstr(s):
+    """Coq string literal; printable ASCII plus tab / newline (a Coq string may span lines)"""
+    for ch in s:
+        if not (32 <= ord(ch) < 127 or ch in "\t\n"):
+            raise ValueError("cstr: %r" % s)
+    return '"' + s.replace('"', '""') + '"%string'
+
 
 ID = "C05"
 GO_PKG = "./lib/mapping"
@@ -823,7 +831,9 @@ def required_map_absent_UNUSED(rng):
 
 # ----------------------------------------------------------------------------- httpc -> httpx round trip
 RT_PATH_STR = ["abc", "a b", "x-1", "A_z.~", "100%", "q?x", "a#b", "a+b", "a%2Fb", "v1", "0"]
-RT_FORM_STR = ["abc", "a b", "x&y=z", "100%", "a+b", "/p/q", "0", "true"]
+RT_FORM_STR = ["abc", "a b", "x&y=z", "100%", "a+b", "/p/q", "0", "true", " a", "a ", "  a b  ", " ", "   ", "\t", "a\tb",
+               "a\nb", "\n", " \t ", "x \n"]
+BLANKS = [" ", "   ", "\t", "\n", " \t "]
 RT_HDR_STR = ["abc", "a b", "tok;en=1", "x, y", "0"]
 RT_HDR_KEYS = ["X-Token", "X-Trace-Id", "x-lower", "Accept-Language", "X-Count"]
 RT_SCALARS = ["str", "bool"] + list(INT_KINDS)
@@ -904,6 +914,8 @@ def rt_scalar_member(rng, k, part, strs):
         v = rt_zero(k)
     if part == "form" and k == "str" and v[1] == "" and not (o["optional"] and o["default"] is None):
         v = ["s", rng.choice(strs)]
+    if part == "form" and k == "str" and rng.random() < 0.25:
+        v = ["s", rng.choice(BLANKS)]            # blank is not empty: present, no default substituted
     return o, v
 
 
@@ -947,6 +959,109 @@ def rt_case(rng):
     method = rng.choice(["POST", "PUT", "PATCH"]) if njson else rng.choice(["GET", "POST", "DELETE"])
     c = mkcase(rng, struct([]), O([]), ["roundtrip"], with_yaml=False, with_conf=False)
     c.update({"rt": True, "rt_shape": struct(fs), "value": ["st", vs], "method": method, "pattern": "/" + "/".join(segs)})
+    return c
+
+
+# ----------------------------------------------------------------------------- httpx.Parse on a constructed request
+def direct_fixed(rng):
+    """the situations of the form / header clauses, in every run"""
+    out = []
+
+    def mk(kind, members, pairs, label):
+        fs = []
+        for i, (nm, t, o) in enumerate(members):
+            f = field("M%d" % i, nm, t, o)
+            f["tag"] = part_tag("header" if kind == "header" else "form", nm, o)
+            fs.append(f)
+        c = mkcase(rng, struct([]), O([]), ["direct", kind, label], with_yaml=False, with_conf=False)
+        c["direct"] = {"kind": kind, "pairs": [{"k": k, "v": v} for k, v in pairs]}
+        c["direct_shape"] = struct(fs)
+        out.append(c)
+    sl = lambda k: {"k": "slice", "e": P(k)}
+    for kind in ("query", "postform"):
+        mk(kind, [("q", P("str"), mkopts())], [("q", ["  padded  "])], "padded")
+        mk(kind, [("q", P("str"), mkopts())], [("q", [" "])], "blank-required")
+        mk(kind, [("q", P("str"), mkopts(default="dflt"))], [("q", [" "])], "blank-default")
+        mk(kind, [("q", P("str"), mkopts(optional=True, default="dflt"))], [("q", ["\t"])], "tab-default")
+        mk(kind, [("q", P("str"), mkopts())], [("q", ["a\nb\tc "])], "newline-tab")
+        mk(kind, [("q", P("str"), mkopts(default="dflt"))], [("q", [""])], "empty-default")
+        mk(kind, [("q", P("str"), mkopts())], [("q", [" first", "second"])], "repeated")
+        mk(kind, [("n", P("int"), mkopts())], [("n", [" 7"])], "padded-int")
+    mk("header", [("X-A", sl("str"), mkopts())], [("X-A", [])], "empty-list")
+    mk("header", [("X-A", sl("str"), mkopts(optional=True))], [("X-A", None)], "nil-list")
+    mk("header", [("X-A", P("str"), mkopts())], [("X-A", [])], "empty-list-scalar")
+    mk("header", [("X-A", P("str"), mkopts(optional=True))], [("X-A", None)], "nil-list-scalar")
+    mk("header", [("X-A", P("int"), mkopts(default="1"))], [("X-A", [])], "empty-list-default")
+    mk("header", [("X-A", sl("str"), mkopts())], [("X-A", ["a", "b"])], "several")
+    mk("header", [("X-A", P("str"), mkopts())], [("X-A", ["a", "b"])], "several-scalar")
+    mk("header", [("X-A", sl("int"), mkopts())], [("X-A", ["1", "x"])], "several-illtyped")
+    mk("header", [("X-A", P("str"), mkopts()), ("X-B", sl("str"), mkopts(optional=True))], [("X-A", ["one"]), ("X-B", [])], "mixed")
+    return out
+
+
+def direct_case(rng):
+    """GET query / POST form with exact (blank, tab, newline, padded, empty, repeated) values; programmatic header maps
+    whose keys carry no value (nil / empty list), one value or several"""
+    kind = rng.choice(["query", "postform", "header", "header"])
+    fs, pairs = [], []
+    if kind != "header":
+        for i, nm in enumerate(rng.sample(["q", "page", "sort", "flag", "name"], rng.randint(1, 4))):
+            k = rng.choice(["str", "str", "str", "int", "bool", "uint8"])
+            o = rt_member_opts(rng, k, "form")
+            t = P(k)
+            if rng.random() < 0.15:
+                t, o = {"k": "slice", "e": P(k)}, mkopts(optional=rng.random() < 0.5)
+            f = field("Q%d" % i, nm, t, o)
+            f["tag"] = part_tag("form", nm, o)
+            fs.append(f)
+            r = rng.random()
+            if r < 0.12:
+                continue                                            # key absent
+            if t["k"] == "slice":
+                vals = [rng.choice(["[1,2]", '["a"," b "]', "[true]", "[]", " [1]", "abc", "null"])]
+            elif k == "str":
+                vals = [rng.choice(RT_FORM_STR + BLANKS + ["", ""])]
+            elif k == "bool":
+                vals = [rng.choice(["true", "0", " true", "false ", "", "TRUE"])]
+            else:
+                vals = [rng.choice(["7", " 7", "7 ", "0", "", "300", "\t1", "-1"])]
+            if rng.random() < 0.15:
+                vals.append(rng.choice(["second", "9", ""]))            # repeated key: the first value counts
+            if rng.random() < 0.05:
+                vals = []
+            pairs.append({"k": nm, "v": vals})
+    else:
+        for i, nm in enumerate(rng.sample(["X-A", "X-Token", "X-Count", "X-List", "Accept-Language"], rng.randint(1, 4))):
+            r = rng.random()
+            if r < 0.45:
+                t = {"k": "slice", "e": P(rng.choice(["str", "str", "int", "bool"]))}
+            elif r < 0.5:
+                t = {"k": "slice", "e": {"k": "ptr", "e": P("str")}}
+            else:
+                t = P(rng.choice(["str", "str", "int", "bool"]))
+            o = mkopts(optional=rng.random() < 0.75)
+            if t["k"] != "slice" and rng.random() < 0.2:
+                o["default"] = "1"
+            f = field("H%d" % i, nm, t, o)
+            f["tag"] = part_tag("header", nm, o)
+            fs.append(f)
+            r = rng.random()
+            if r < 0.1:
+                continue
+            if t["k"] != "slice" and r < 0.8:
+                r = 0.5 + r / 4                                       # scalar members mostly get exactly one value
+            if r < 0.3:
+                vals = []
+            elif r < 0.45:
+                vals = None
+            elif r < 0.75:
+                vals = [rng.choice(["a", "1", "true", " padded ", "", "[1,2]", '["x"]'])]
+            else:
+                vals = [rng.choice(["a", "1", "true", "", " "]) for _ in range(rng.randint(2, 3))]
+            pairs.append({"k": nm, "v": vals})
+    c = mkcase(rng, struct([]), O([]), ["direct", kind], with_yaml=False, with_conf=False)
+    c["direct"] = {"kind": kind, "pairs": pairs}
+    c["direct_shape"] = struct(fs)
     return c
 
 
@@ -1128,6 +1243,7 @@ def generate(rng, tier, n):
         tpls = known_templates()
         for tpl in rng.sample(tpls, 8):          # small dedicated stream of known findings (classified, never new)
             cases.append(known_case(rng, tpl))
+        cases.extend(direct_fixed(rng))
         ns = numstr_cases(rng)                   # systematic from-string numerics: all in the thorough tier
         cases.extend(ns if tier == "thorough" else rng.sample(ns, 60))
     depth = 2
@@ -1148,21 +1264,25 @@ def generate(rng, tier, n):
         if r0 < 0.42:
             cases.append(marshal_case(rng))
             continue
+        if r0 < 0.50:
+            cases.append(direct_case(rng))
+            continue
         shape = gen_struct(rng, depth)
         r = rng.random()
         mode = "good" if r < 0.7 else "mixed"
         doc = gen_obj(rng, shape, mode)
         cases.append(mkcase(rng, shape, doc, [mode]))
+        cases[-1]["readers"] = rng.random() < 0.15        # extra reader situations: empty / blank / drained / one byte
     return cases
 
 
 def search(rng, problems):
-    return directed(rng)
+    return directed(rng) + direct_fixed(rng)
 
 
 def drive(cases, tier):
     m_in = [{"shape": c["shape"], "json": c["json"], "yaml": c["yaml"], "strmode": bool(c.get("strmode")),
-             "float": c.get("float", ""), "marshal": c.get("marshal")} for c in cases]
+             "float": c.get("float", ""), "marshal": c.get("marshal"), "readers": bool(c.get("readers"))} for c in cases]
     c_in = [{"shape": c["shape"], "conf": c["conf"], "cyaml": c.get("cyaml", ""), "keys": c["keys"]} for c in cases]
     mo, log1 = run_driver("./lib/mapping", m_in, name="C05m_" + tier, timeout=DRIVER_TIMEOUT)
     if mo is None:
@@ -1171,7 +1291,7 @@ def drive(cases, tier):
     if co is None:
         return None, log2
     r_in = [{"rt": True, "shape": c["rt_shape"], "value": c["value"], "method": c["method"], "pattern": c["pattern"]}
-            if c.get("rt") else {"rt": False} for c in cases]
+            if c.get("rt") else ({"direct": c["direct"], "shape": c["direct_shape"]} if c.get("direct") else {"rt": False}) for c in cases]
     ro, log3 = run_driver("./api/httpc", r_in, name="C05r_" + tier, timeout=DRIVER_TIMEOUT)
     if ro is None:
         return None, log3
@@ -1181,8 +1301,9 @@ def drive(cases, tier):
             return None, "driver error: %r %r %r" % (a, b, r)
         if "error" in (a.get("m") or {}):
             return None, "driver error (marshal): %r" % (a["m"],)
-        obs.append({"j": a["j"], "y": a.get("y"), "c": b.get("c"), "cy": b.get("cy"), "camel": b["camel"], "rt": r if r else None,
-                    "s": a.get("s"), "f": a.get("f"), "m": a.get("m")})
+        obs.append({"j": a["j"], "y": a.get("y"), "c": b.get("c"), "cy": b.get("cy"), "camel": b["camel"],
+                    "rt": r if (r and "d" not in r) else None,
+                    "s": a.get("s"), "f": a.get("f"), "m": a.get("m"), "rd": a.get("rd"), "d": (r or {}).get("d")})
     # known findings: which single unenforced clause (if any) is the sole reason spec_ok fails -- decided in Coq
     idx = [i for i, c in enumerate(cases) if c["label"][0] == "known"]
     if idx:
@@ -1401,14 +1522,24 @@ def encode(case, obs):
         else:
             mo = "MErr" if m["r"] == "err" else "MPanic"
         ma = cpair(clist(mfs), clist([c_val(v) for v in case["marshal"]["value"][1]]), mo)
-    return "(mkcase %s %s %s %s %s %s %s %s %s %s %s)" % (
+    rd = clist([cpair(c_obs(row[1]), c_obs(row[2])) for row in (obs.get("rd") or [])])
+    di = None
+    if case.get("direct") and obs.get("d") is not None:
+        d = case["direct"]
+        if d["kind"] == "header":
+            prs = clist([cpair(cstr(p["k"]), copt(None if p["v"] is None else clist([c_jv(["s", v]) for v in p["v"]]))) for p in d["pairs"]])
+            di = cpair("(DHeader %s %s)" % (c_ty(case["direct_shape"]), prs), c_obs(obs["d"]))
+        else:
+            prs = clist([cpair(cstr(p["k"]), clist([c_jv(["s", v]) for v in p["v"]])) for p in d["pairs"]])
+            di = cpair("(DForm %s %s)" % (c_ty(case["direct_shape"]), prs), c_obs(obs["d"]))
+    return "(mkcase %s %s %s %s %s %s %s %s %s %s %s %s %s)" % (
         c_ty(case["shape"]), c_jv(case["doc"]), c_obs(obs["j"]), copt(y), copt(c), keys,
-        cbool("outside" in case["label"]), copt(rt), copt(st), clist(fl), copt(ma))
+        cbool("outside" in case["label"]), copt(rt), copt(st), clist(fl), copt(ma), rd, copt(di))
 
 
 # ----------------------------------------------------------------------------- evidence helpers
 def nontrivial(case, obs):
-    if case.get("rt") or case.get("float") or case.get("marshal"):
+    if case.get("rt") or case.get("float") or case.get("marshal") or case.get("direct"):
         return True
     return "directed" not in case["label"] and "outside" not in case["label"] and len(case["doc"][1]) > 0
 
@@ -1419,6 +1550,18 @@ def bucket(case, obs):
         return ["stream:float"] + ["float%s:%s" % (b, "ok" if f[b]["j"] is not None else "rejected") for b in ("32", "64")]
     if case.get("marshal"):
         return ["stream:marshal", "marshal:" + obs["m"]["r"]]
+    if case.get("direct"):
+        d = case["direct"]
+        out = ["stream:direct", "direct:" + d["kind"], "direct-" + d["kind"] + ":" + obs["d"]["r"]]
+        if any(p["v"] is None for p in d["pairs"]):
+            out.append("direct:nil-value-list")
+        if any(p["v"] == [] for p in d["pairs"]):
+            out.append("direct:empty-value-list")
+        if any(p["v"] and len(p["v"]) > 1 for p in d["pairs"]):
+            out.append("direct:several-values")
+        if any(p["v"] and p["v"][0] != p["v"][0].strip() for p in d["pairs"]):
+            out.append("direct:padded-or-blank-value")
+        return out
     if case["label"][0] == "numstr":
         return ["stream:numstr", "numstr-path:" + case["label"][1], "numstr:" + (obs["s"] if case.get("strmode") else obs["j"])["r"]]
     if case.get("rt"):
@@ -1444,6 +1587,8 @@ def bucket(case, obs):
         out.append("tag:optional=dep")
     if len(case["label"]) > 1:
         out.append("directed:" + case["label"][1])
+    if case.get("readers"):
+        out.append("readers:empty/blank/drained/onebyte")
     kinds = set()
 
     def walk(t):
@@ -1466,6 +1611,14 @@ def explain(case, obs):
                 "bit pattern (Spec.json_yaml_float_agree): %s" % (case["float"], json.dumps(obs["f"])))
     if case.get("marshal"):
         return "mapping.Marshal panicked on %s" % json.dumps(case["marshal"]["value"])
+    if case.get("direct"):
+        return ("httpx.Parse on a constructed %s request %s: a form value did not arrive unchanged / did not count as present, "
+                "or a header map with an empty / nil / multiple value list was not handled (error or slice): %s"
+                % (case["direct"]["kind"], json.dumps(case["direct"]["pairs"]), json.dumps(obs["d"])[:400]))
+    for row in obs.get("rd") or []:
+        if row[1].get("r") != row[2].get("r") or row[1].get("v") != row[2].get("v"):
+            return ("reader entry point differs from the bytes entry point on '%s' (document %s): bytes %s, reader %s"
+                    % (row[0], case["json"], json.dumps(row[1])[:200], json.dumps(row[2])[:200]))
     if case.get("rt"):
         return ("round trip: the request struct %s sent with httpc.buildRequest/DoRequest to %s %s was not parsed back by "
                 "httpx.Parse into an equal struct: %s" % (json.dumps(case["value"]), case["method"], case["pattern"],
